@@ -20,6 +20,22 @@ with tempfile.TemporaryDirectory() as td:
         if not any(c.tag in ("failure", "error", "skipped") for c in tc):
             passed.add(f"{tc.get('classname')}::{tc.get('name')}")
 missing = sorted(want - passed)
+# known-flaky under concurrent runs (ssl cert / port races in test_server.py): retry the few missing ones alone
+if 0 < len(missing) <= 5:
+    import time
+    for attempt in range(2):
+        still = []
+        for m in missing:
+            cls, name = m.split("::", 1)
+            path = cls.replace(".", "/") + ".py::" + name
+            time.sleep(1)
+            r = subprocess.run(["/venv/bin/python", "-m", "pytest", "-q", "-p", "no:cacheprovider", "--timeout=900", path],
+                               cwd=repo, stdout=subprocess.PIPE, stderr=subprocess.STDOUT, text=True)
+            if r.returncode != 0:
+                still.append(m)
+        missing = still
+        if not missing:
+            break
 print(f"baseline stable_pass={len(want)} passed_now={len(passed)} missing={len(missing)}")
 for m in missing[:40]:
     print("  MISSING", m)
